@@ -217,6 +217,22 @@ def host_workload(ops, rng, n):
         if k % 4 == 0:
             ops.parse(2, 0, 'ws://example.com/')
             ops.set(2, 'hostname', h)
+    # has_valid_domain next to the DNS limits WITH userinfo and a port in the authority (the limits are on the host name alone)
+    k = 0
+    for lab in (58, 59, 60, 61, 62, 63, 64):
+        for auth, port in (('', ''), ('', ':8443'), ('user@', ':1'), ('u:p@', ':65535'), ('', ':443')):
+            if k % 6 == 0:
+                ops.reset()
+            k += 1
+            ops.parse(1, 0, 'https://%swww.%s%s/' % (auth, 'a' * lab, port))
+            if port == '':
+                ops.set(1, 'port', '8080')
+    for tot in (248, 249, 250, 251, 252, 253, 254):
+        name = '.'.join(['a' * 50] * 5)[:tot - 1] + 'b'
+        for port in ('', ':8443'):
+            ops.reset()
+            ops.parse(1, 0, 'https://%s%s/' % (name, port))
+            ops.parse(1, 0, 'https://%s.%s/' % (name, port))
     for i in range(n):
         ops.reset()
         h = some_host(rng)
